@@ -79,6 +79,11 @@ def NS_PER_MIN : Int := 60 * 1000000000
 def NS_PER_HOUR : Int := 3600 * 1000000000
 def NS_PER_DAY : Int := 86400 * 1000000000
 
+/-- the value of a successful computation (for executable checks) -/
+def okVal {α : Type} : Except Err α → Option α
+  | .ok a => some a
+  | .error _ => none
+
 /-- minimum of a list of integers -/
 def minList : List Int → Option Int
   | [] => none
